@@ -259,6 +259,14 @@ func (d *Decoder) Write(p []byte) (n int, err error) {
 	}
 
 	for len(d.buf) > 0 {
+		// A dynamic table size update does not end the beginning
+		// of the header block: RFC 7541 section 4.2 allows more
+		// than one there. An encoder whose table size was lowered
+		// and then raised between two header blocks signals the
+		// smallest size followed by the final size (as Encoder
+		// does), and the second update must be accepted even if
+		// the table is not empty after the first.
+		isSizeUpdate := d.buf[0]&224 == 32
 		err = d.parseHeaderFieldRepr()
 		if err == errNeedMore {
 			// Extra paranoia, making sure saveBuf won't
@@ -281,7 +289,9 @@ func (d *Decoder) Write(p []byte) (n int, err error) {
 			d.saveBuf.Write(d.buf)
 			return len(p), nil
 		}
-		d.firstField = false
+		if !isSizeUpdate {
+			d.firstField = false
+		}
 		if err != nil {
 			break
 		}
